@@ -44,6 +44,7 @@ def pArg : P (Option Tok) := do
   | "P" => return some { id := 2, jax := false, content := 0 }
   | "O" => return some { id := 3, jax := true, content := 1 }
   | "Q" => return some { id := 4, jax := false, content := 1 }
+  | "E" => return some { id := 5, jax := true, content := 2 }
   | _ => throw s!"arg? {t}"
 
 def pOp : P Op := do
